@@ -315,9 +315,10 @@ def edit_ops(rng, b, s, bias=None):
 
 
 def gen_session(rng, tier, peer_mode=None, nsolves=None, allow_mosek=True, allow_heuristic=False, weights=None,
-                decorations=None, evals=True, class_duals=False, template=None, allow_decor=None, n=None, edits=True, edit_bias=None, faults=True):
+                decorations=None, evals=True, class_duals=False, template=None, allow_decor=None, n=None, edits=True, edit_bias=None, faults=True,
+                dup_names=None):
     b = templates.build_model(rng, template=template, weights=weights, decorations=decorations,
-                              allow_decor=allow_decor, n=n)
+                              allow_decor=allow_decor, n=n, dup_names=dup_names)
     ops = list(b.ops)
     peer_mode = peer_mode or rng.choice(["tagged", "tagged", "real"])
     nsolves = nsolves if nsolves is not None else rng.choice([1, 1, 1, 2])
